@@ -602,6 +602,22 @@ def check_placeholder(case):
             res.fail(clause(klass, "placeholder"),
                      "%s: resulting expression %r; for tags %s the substituted formula is %s, check() says %s"
                      % (shown, config.tag_expression, diff[0], diff[1], diff[2]), config=terms, args=args)
+        elif case["cv"] % 2 == 0:
+            # history: another configuration object (old dialect) is built in the same process, then this one reads
+            # its tags again (what a hook does with config.setup_tag_expression()): still its own dialect
+            res.label("placeholder:re-read-after-another-configuration")
+            Configuration([], load_config=False, tag_expression_protocol=TagExpressionProtocol.V1)
+            try:
+                config.setup_tag_expression()
+                diff = first_diff(want, behave_table(config.tag_expression))
+                if diff:
+                    res.fail(clause(klass, "placeholder-reread"),
+                             "%s: after another Configuration (dialect v1) was built, setup_tag_expression() gives %r; "
+                             "for tags %s the substituted formula is %s, check() says %s"
+                             % (shown, config.tag_expression, diff[0], diff[1], diff[2]), config=terms, args=args)
+            except TagExpressionError as e:
+                res.fail(clause(klass, "placeholder-reread"), "%s: after another Configuration (dialect v1) was built, "
+                         "setup_tag_expression() rejects the tags: %s" % (shown, _one_line(e)), config=terms, args=args)
     finally:
         os.chdir(old_cwd)
         if old_home is None:
@@ -821,7 +837,7 @@ def required_labels(tier):
             "depth:3", "depth:5", "placeholder:substituted", "placeholder:no-command-line-tags",
             "escaped-wildcard", "escaped-literal", "glob-edge", "glob-edge:overlap-candidate",
             "rendering:term-of-parenthesised-groups", "glob-edge:character-class", "glob-edge:character-class-next-to-star",
-            "operator-like-tag-names", "command-line", "command-line:--wip", "command-line:terms=3", "placeholder-unconfigured", "run-protocol:V1", "run-protocol:V2", "run-protocol:AUTO_DETECT"] + ["placeholder:" + v for v in VIAS]
+            "operator-like-tag-names", "command-line", "command-line:--wip", "command-line:terms=3", "placeholder-unconfigured", "placeholder:re-read-after-another-configuration", "run-protocol:V1", "run-protocol:V2", "run-protocol:AUTO_DETECT"] + ["placeholder:" + v for v in VIAS]
 
 
 KNOWN_PREDICATES = {}
@@ -830,3 +846,4 @@ KNOWN_PREDICATES = {}
 RULE = RULE + " " + ("Further sub-checks: a second universe with operator-like tag names (OR-1, NOT.x, k=And, Or, AND; OR-* wildcards) that are operands, never operators; the command-line route (one --tags option per term of a real Configuration, with and without --wip); rendering 32 = a term that starts with '(' and ends with ')' without being one group.")
 RULE = RULE + " " + ("21 child-process runs with tag_expression_protocol set in behave.ini: hooks observe the dialect in force (and what make_tag_expression('a,b') means) during the run; --tags=a,b selects accordingly.")
 RULE = RULE + " " + ("The placeholder without any configured tags: refused, or -- when accepted -- equal to the template with an always-true placeholder.")
+RULE = RULE + " " + ('Half of the placeholder cases continue with a history: a second Configuration with the old dialect is built, then the first one reads its tags again (setup_tag_expression()): same formula.')
